@@ -304,13 +304,13 @@ fn rcontrolblock(rng: &mut ChaCha20Rng) -> ControlBlock {
     ControlBlock::from_slice(&b).unwrap()
 }
 /// all tree shapes with `n` leaves as depth sequences
-fn shapes(n: usize) -> Vec<Vec<usize>> {
+pub fn shapes(n: usize) -> Vec<Vec<usize>> {
     if n == 1 { return vec![vec![0]]; }
     let mut out = Vec::new();
     for l in 1..n { for a in shapes(l) { for b in shapes(n - l) { let mut v: Vec<usize> = a.iter().map(|d| d + 1).collect(); v.extend(b.iter().map(|d| d + 1)); out.push(v); } } }
     out
 }
-fn taptree_of(rng: &mut ChaCha20Rng, depths: &[usize]) -> TapTree {
+pub fn taptree_of(rng: &mut ChaCha20Rng, depths: &[usize]) -> TapTree {
     let mut b = TaprootBuilder::new();
     for d in depths { let s = Script::from(rbl(rng, 6)); b = b.add_leaf_with_ver(*d, s, rleafver(rng)).unwrap(); }
     TapTree::from_inner(b).unwrap()
@@ -344,7 +344,7 @@ fn runknownkey(rng: &mut ChaCha20Rng) -> raw::Key { raw::Key { type_value: rng.g
 pub const N_GLOBAL: usize = 7;
 pub const N_INPUT: usize = 55;
 pub const N_OUTPUT: usize = 17;
-fn set_global(p: &mut Pset, f: usize, rng: &mut ChaCha20Rng, tags: &mut Vec<String>) {
+pub fn set_global(p: &mut Pset, f: usize, rng: &mut ChaCha20Rng, tags: &mut Vec<String>) {
     let g = &mut p.global;
     tags.push(format!("g:{}", f));
     match f {
@@ -358,7 +358,7 @@ fn set_global(p: &mut Pset, f: usize, rng: &mut ChaCha20Rng, tags: &mut Vec<Stri
     }
     if f == 1 || f == 0 { g.tx_data.version = pk!(rng, [2u32, 1, 0, rng.gen()]); }
 }
-fn set_input(i: &mut Input, f: usize, rng: &mut ChaCha20Rng, tags: &mut Vec<String>) {
+pub fn set_input(i: &mut Input, f: usize, rng: &mut ChaCha20Rng, tags: &mut Vec<String>) {
     tags.push(format!("i:{}", f));
     let k = rng.gen_range(1..4);
     match f {
@@ -419,7 +419,7 @@ fn set_input(i: &mut Input, f: usize, rng: &mut ChaCha20Rng, tags: &mut Vec<Stri
         _ => { i.pegin_txout_proof = Some(vec![]); }
     }
 }
-fn set_output(o: &mut Output, f: usize, rng: &mut ChaCha20Rng, tags: &mut Vec<String>) {
+pub fn set_output(o: &mut Output, f: usize, rng: &mut ChaCha20Rng, tags: &mut Vec<String>) {
     tags.push(format!("o:{}", f));
     let k = rng.gen_range(1..4);
     match f {
@@ -488,7 +488,7 @@ fn set_site(p: &mut Pset, site: usize, n: usize, rng: &mut ChaCha20Rng) -> &'sta
         _ => { p.inputs_mut()[0].tap_key_sig = Some(rschnorr(rng)); p.inputs_mut()[0].tap_scripts.insert(rcontrolblock(rng), (script.clone(), rleafver(rng))); p.inputs_mut()[0].tap_scripts.insert(rcontrolblock(rng), (script, rleafver(rng))); "two-tap-leaf-scripts" }
     }
 }
-fn base(rng: &mut ChaCha20Rng, nin: usize, nout: usize) -> Pset {
+pub fn base(rng: &mut ChaCha20Rng, nin: usize, nout: usize) -> Pset {
     let mut p = Pset::new_v2();
     for _ in 0..nin { p.add_input(Input::from_prevout(OutPoint::new(Txid::from_byte_array(r32(rng)), rng.gen_range(0..4)))); }
     for _ in 0..nout { p.add_output(Output::new_explicit(rscript(rng, false), rng.gen(), rasset_id(rng), None)); }
